@@ -1,6 +1,6 @@
 (** Extraction of the executable model for the correspondence driver.
     ExtrOcamlBasic only; N and Z stay the extracted inductives. *)
-Require Import Base Kinds GenUnionTable Schema Varint Utf8 Sval Ser Rabin CrcSpec Text CanonicalForm Target Reader De VectoredWrite AvroValue Encoding Denote DenoteOpt Container FileSpec Json Parse SchemaJson PcfSpec SerHistory SingleObject Freeze Ownership Wf Derive CodecLoop DecodeLoop ContainerCodec ContainerReplay.
+Require Import Base Kinds GenUnionTable Schema Varint Utf8 Sval Ser Rabin CrcSpec Text CanonicalForm Target Reader De VectoredWrite AvroValue Encoding Denote DenoteOpt Container FileSpec Json JsonRead JsonReadSchema Parse SchemaJson PcfSpec SerHistory SingleObject Freeze Ownership Wf Derive CodecLoop DecodeLoop ContainerCodec ContainerReplay.
 Require Extraction.
 Require Import ExtrOcamlBasic.
 Extraction Language OCaml.
@@ -18,6 +18,7 @@ Separate Extraction
   AvroValue.conforms Encoding.encode_e Encoding.erase Encoding.layout_ok Encoding.canon Encoding.spec_encode
   Container.wbuild Container.wrun Container.cr_open Container.cr_run Container.mkCR Container.header_meta
   SingleObject.so_encode SingleObject.so_encode_sink SingleObject.so_decode SerHistory.hist_run SerHistory.hist_step FileSpec.ref_parse Parse.parse_schema Parse.check_for_cycles SchemaJson.schema_json Freeze.freeze_built PcfSpec.pcf Json.json_text
+  JsonRead.json_of_text JsonReadSchema.parse_schema_text
   Ownership.shape Ownership.freeze_run Ownership.exec_trace Ownership.fm0 Ownership.step Ownership.live_okb Ownership.st0
   Derive.derive_schema Derive.derive_schema_unregistered Derive.fullnames Derive.no_dup_bytes
   CodecLoop.replay_block CodecLoop.snappy_encode CodecLoop.snappy_decode CodecLoop.be32 CodecLoop.of_be32
